@@ -4,7 +4,13 @@
 #[derive(Clone)]
 pub struct Rng(pub u64);
 impl Rng {
-    pub fn new(seed: u64) -> Self { Rng(seed.wrapping_mul(0x9E3779B97F4A7C15).wrapping_add(0x1234_5678_9ABC_DEF1)) }
+    /// the seed is hashed (splitmix64 finaliser) so that neighbouring seeds give unrelated streams, not shifted copies
+    pub fn new(seed: u64) -> Self {
+        let mut z = seed.wrapping_add(0x1234_5678_9ABC_DEF1).wrapping_mul(0x9E3779B97F4A7C15);
+        z = (z ^ (z >> 30)).wrapping_mul(0xBF58476D1CE4E5B9);
+        z = (z ^ (z >> 27)).wrapping_mul(0x94D049BB133111EB);
+        Rng(z ^ (z >> 31))
+    }
     pub fn next_u64(&mut self) -> u64 {
         self.0 = self.0.wrapping_add(0x9E3779B97F4A7C15);
         let mut z = self.0;
